@@ -238,24 +238,11 @@ Local Open Scope string_scope.
     - C08-selcfg-global-rng: the 8 selection protocols pass rng = self.rng to the configuration and to their default optimisers;
     - C08-helpers-global-rng: Random*SelectionProblem.from_object accepts rng, Random*Selection.problem passes self.rng;
     - C08-g1norm-global-shuffle: Generalized1NormGenomicSelection.select shuffles with self.rng;
-    - C08-setga-python-random: UnconstrainedSetGeneticAlgorithm.sel*Replacement draw from self.rng.
+    - C08-setga-python-random: UnconstrainedSetGeneticAlgorithm.sel*Replacement draw from self.rng;
+    - C08-memetic-ignores-rng: the memetic mutation operators (hill-climber mutations, MutatorA/B/F, tiled_choice) draw from the
+      random_state pymoo hands them and pass it on to their helper methods;
+    - C08-selprot-rng-setter-stale-optimiser (and the legacy protocols): the rng setter re-points the default optimisers the protocol built.
     The formerly failing sites are listed in [repaired] below and proved explicit-only without exception. *)
-Definition roots_memetic : list String.string := [   (* C08-memetic-ignores-rng : memetic mutation operators draw from numpy.random *)
-  "opt.algo.pymoo_addon.tiled_choice";
-  "opt.algo.pymoo_addon.MultiObjectiveStochasticHillClimberMutation.hillclimb";
-  "opt.algo.pymoo_addon.MultiObjectiveStochasticHillClimberMutation._do";
-  "opt.algo.pymoo_addon.MultiObjectiveSteepestDescentHillClimberMutation.hillclimb";
-  "opt.algo.pymoo_addon.MultiObjectiveSteepestDescentHillClimberMutation.do";
-  "opt.algo.pymoo_addon.MultiObjectiveSteepestDescentHillClimberMutation._do";
-  "opt.algo.pymoo_addon.MultiObjectiveStochasticDescentHillClimberMutation.hillclimb";
-  "opt.algo.pymoo_addon.MultiObjectiveStochasticDescentHillClimberMutation.do";
-  "opt.algo.pymoo_addon.MultiObjectiveStochasticDescentHillClimberMutation._do";
-  "opt.algo.pymoo_addon.StochasticHillClimberMutation.reduced_exchange";
-  "opt.algo.pymoo_addon.StochasticHillClimberMutation.hillclimb";
-  "opt.algo.pymoo_addon.StochasticHillClimberMutation._do";
-  "opt.algo.pymoo_addon.MutatorA.reduced_exchange"; "opt.algo.pymoo_addon.MutatorA.hillclimb"; "opt.algo.pymoo_addon.MutatorA._do";
-  "opt.algo.pymoo_addon.MutatorB.reduced_exchange"; "opt.algo.pymoo_addon.MutatorB.hillclimb"; "opt.algo.pymoo_addon.MutatorB._do";
-  "opt.algo.pymoo_addon.MutatorF.reduced_exchange"; "opt.algo.pymoo_addon.MutatorF.hillclimb"; "opt.algo.pymoo_addon.MutatorF._do" ].
 Definition roots_global_helpers : list String.string := [   (* C08-helpers-no-rng-param : helpers WITHOUT an rng parameter, reachable from rng-taking protocols, draw from the global stream *)
   "breed.prot.sel.prob.RealLookAheadGeneralizedWeightedGenomicSelectionProblem.RealLookAheadGeneralizedWeightedGenomicSelectionProblem.latentfn";
   "model.embvmat.DenseExpectedMaximumBreedingValueMatrix.DenseExpectedMaximumBreedingValueMatrix.from_gmod";
@@ -265,7 +252,7 @@ Definition roots_py : list String.string := [   (* C08-deap-python-random : deap
 (** the seeding interface itself: by design it writes both global streams *)
 Definition roots_prng : list String.string := [ "core.random.prng.seed"; "core.random.prng.spawn" ].
 Definition root_names : list String.string :=
-  roots_memetic ++ roots_global_helpers ++ roots_py ++ roots_prng.
+  roots_global_helpers ++ roots_py ++ roots_prng.
 
 (** the formerly failing sites of the repaired findings (the former root causes): explicit-only, no exception, not a root *)
 Definition repaired : list String.string := [
@@ -299,7 +286,46 @@ Definition repaired : list String.string := [
   "breed.prot.sel.UnconstrainedGeneralized1NormGenomicSelection.Generalized1NormGenomicSelection.select";
   (* C08-setga-python-random *)
   "opt.algo.UnconstrainedSetGeneticAlgorithm.UnconstrainedSetGeneticAlgorithm.selRandomReplacement";
-  "opt.algo.UnconstrainedSetGeneticAlgorithm.UnconstrainedSetGeneticAlgorithm.selTournamentReplacement" ].
+  "opt.algo.UnconstrainedSetGeneticAlgorithm.UnconstrainedSetGeneticAlgorithm.selTournamentReplacement";
+  (* C08-memetic-ignores-rng *)
+  "opt.algo.pymoo_addon.tiled_choice";
+  "opt.algo.pymoo_addon.MultiObjectiveStochasticHillClimberMutation.hillclimb";
+  "opt.algo.pymoo_addon.MultiObjectiveStochasticHillClimberMutation._do";
+  "opt.algo.pymoo_addon.MultiObjectiveSteepestDescentHillClimberMutation.hillclimb";
+  "opt.algo.pymoo_addon.MultiObjectiveSteepestDescentHillClimberMutation.do";
+  "opt.algo.pymoo_addon.MultiObjectiveSteepestDescentHillClimberMutation._do";
+  "opt.algo.pymoo_addon.MultiObjectiveStochasticDescentHillClimberMutation.hillclimb";
+  "opt.algo.pymoo_addon.MultiObjectiveStochasticDescentHillClimberMutation.do";
+  "opt.algo.pymoo_addon.MultiObjectiveStochasticDescentHillClimberMutation._do";
+  "opt.algo.pymoo_addon.StochasticHillClimberMutation.reduced_exchange";
+  "opt.algo.pymoo_addon.StochasticHillClimberMutation.hillclimb";
+  "opt.algo.pymoo_addon.StochasticHillClimberMutation._do";
+  "opt.algo.pymoo_addon.MutatorA.reduced_exchange";
+  "opt.algo.pymoo_addon.MutatorA.hillclimb";
+  "opt.algo.pymoo_addon.MutatorA._do";
+  "opt.algo.pymoo_addon.MutatorB.reduced_exchange";
+  "opt.algo.pymoo_addon.MutatorB.hillclimb";
+  "opt.algo.pymoo_addon.MutatorB._do";
+  "opt.algo.pymoo_addon.MutatorF.reduced_exchange";
+  "opt.algo.pymoo_addon.MutatorF.hillclimb";
+  "opt.algo.pymoo_addon.MutatorF._do";
+  (* C08-selprot-rng-setter-stale-optimiser, C08-legacy-selprot-rng-setter-stale-optimiser: the setter names the protocol's generator only
+     (and the attribute rng of the optimisers it re-points) *)
+  "breed.prot.sel.SelectionProtocol.SelectionProtocol.rng.setter";
+  "breed.prot.sel.UnconstrainedGeneralized1NormGenomicSelection.Generalized1NormGenomicSelection.rng.setter";
+  "breed.prot.sel.UnconstrainedMultiObjectiveGenomicMating.MultiObjectiveGenomicMating.rng.setter" ].
+
+(** the deep-copy routes of the stochastic classes (C08-default-deepcopy-snapshots-rng repaired: every class that accepts rng inherits one of
+    the six base-class methods — audited by introspection on every run — or is G_E_Phenotyping): they must exist in the source, take no
+    snapshot of a generator, and reach explicit sources only *)
+Definition deepcopy_routes : list String.string := [
+  "breed.prot.mate.MatingProtocol.MatingProtocol.__deepcopy__";
+  "breed.prot.sel.SelectionProtocol.SelectionProtocol.__deepcopy__";
+  "breed.prot.sel.UnconstrainedSelectionProtocol.UnconstrainedSelectionProtocol.__deepcopy__";
+  "breed.prot.sel.cfg.SampledSelectionConfigurationMixin.SampledSelectionConfigurationMixin.__deepcopy__";
+  "opt.algo.OptimizationAlgorithm.OptimizationAlgorithm.__deepcopy__";
+  "opt.algo.UnconstrainedOptimizationAlgorithm.UnconstrainedOptimizationAlgorithm.__deepcopy__";
+  "breed.prot.pt.G_E_Phenotyping.G_E_Phenotyping.__deepcopy__" ].
 
 (** components that the property anchors: they MUST be explicit-only (no exception applies to them) *)
 Definition must_be_explicit : list String.string := [
@@ -348,6 +374,11 @@ Definition must_be_explicit : list String.string := [
   "opt.algo.SubsetGeneticAlgorithm.SubsetGeneticAlgorithm.minimize"; "opt.algo.SubsetGeneticAlgorithm.SubsetGeneticAlgorithm.__init__";
   "opt.algo.NSGA2SubsetGeneticAlgorithm.NSGA2SubsetGeneticAlgorithm.minimize"; "opt.algo.NSGA2SubsetGeneticAlgorithm.NSGA2SubsetGeneticAlgorithm.__init__";
   "opt.algo.NSGA3SubsetGeneticAlgorithm.NSGA3SubsetGeneticAlgorithm.minimize"; "opt.algo.NSGA3SubsetGeneticAlgorithm.NSGA3SubsetGeneticAlgorithm.__init__";
+  (* the memetic NSGA-II optimisers: since the repair of C08-memetic-ignores-rng *)
+  "opt.algo.NSGA2MemeticSubsetGeneticAlgorithm.NSGA2MutatorASubsetGeneticAlgorithm.minimize"; "opt.algo.NSGA2MemeticSubsetGeneticAlgorithm.NSGA2MutatorASubsetGeneticAlgorithm.__init__";
+  "opt.algo.NSGA2MemeticSubsetGeneticAlgorithm.NSGA2MutatorBSubsetGeneticAlgorithm.minimize"; "opt.algo.NSGA2MemeticSubsetGeneticAlgorithm.NSGA2MutatorBSubsetGeneticAlgorithm.__init__";
+  "opt.algo.NSGA2MemeticSubsetGeneticAlgorithm.NSGA2SteepestDescentSubsetGeneticAlgorithm.minimize"; "opt.algo.NSGA2MemeticSubsetGeneticAlgorithm.NSGA2SteepestDescentSubsetGeneticAlgorithm.__init__";
+  "opt.algo.NSGA2MemeticSubsetGeneticAlgorithm.NSGA2StochasticDescentSubsetGeneticAlgorithm.minimize"; "opt.algo.NSGA2MemeticSubsetGeneticAlgorithm.NSGA2StochasticDescentSubsetGeneticAlgorithm.__init__";
   (* legacy set GA: since the repair of C08-setga-python-random *)
   "opt.algo.UnconstrainedSetGeneticAlgorithm.UnconstrainedSetGeneticAlgorithm.optimize";
   "opt.algo.UnconstrainedSetGeneticAlgorithm.UnconstrainedSetGeneticAlgorithm.__init__";
@@ -367,9 +398,11 @@ Definition root_ids : list positive := Eval vm_compute in opt_list (ids_of root_
 Definition must_ids : list positive := Eval vm_compute in opt_list (ids_of must_be_explicit).
 Definition global_ids : list positive := Eval vm_compute in opt_list (ids_of global_by_design).
 Definition repaired_ids : list positive := Eval vm_compute in opt_list (ids_of repaired).
+Definition deepcopy_ids : list positive := Eval vm_compute in opt_list (ids_of deepcopy_routes).
 
 (** masks the FORMER code had at the repaired sites (regression witnesses, see [Proofs]): a selection protocol's [select] passed
-    the literal rng = None on (DROPS); the subset operators and the random-selection helpers drew from numpy's global stream (NP);
+    the literal rng = None on (DROPS); the subset operators, the memetic mutation operators and the random-selection helpers drew from
+    numpy's global stream (NP);
     the legacy set GA drew from python's global stream (PY) *)
 Definition old_selcfg_mask : N := DROPS.
 Definition old_global_draw_mask : N := NP.
